@@ -42,18 +42,20 @@ class AnnounceUnit(_Unit):
     """real MQ.send_exit_msg -> real ZMQReceiver.send_oob / Sender.send_push and real ZMQSender.send_oob: the exit announcement is handed to the request channel of EVERY
     source that has one (whether or not that source has been heard yet) and to every PUB socket, carrying the reason"""
     name = 'MQ.send_exit_msg / ZMQReceiver.send_oob / ZMQSender.send_oob'
-    targets = (f'{MQ}::MQ.send_exit_msg', f'{ZMQ}::ZMQReceiver.send_oob', f'{ZMQ}::ZMQReceiver.Sender.send_push', f'{ZMQ}::ZMQSender.send_oob')
-    required_covers = ('announced upstream', 'announced downstream')
+    targets = (f'{MQ}::MQ.send_exit_msg', f'{MQ}::MQ.__init__', f'{ZMQ}::ZMQReceiver.send_oob', f'{ZMQ}::ZMQReceiver.Sender.send_push', f'{ZMQ}::ZMQSender.send_oob')
+    required_covers = ('announced upstream', 'announced downstream', 'exit received before')
     mutants = (('exit announced only to sources already heard', f'{ZMQ}::ZMQReceiver.send_oob', 'sender.send_push(msg0, msg_)', 'sender.conn and sender.send_push(msg0, msg_)', 'C08.announce_delivery'),
                ('exit not announced downstream', f'{MQ}::MQ.send_exit_msg', 'self.sender.send_oob(reason)', 'pass', 'C08.announce_delivery'))
 
     def shapes(self, tier):
-        return [(has_r, has_s, ephs) for has_r in (True, False) for has_s in (True, False) for n in ((1, 2) if tier == 'quick' else (1, 2, 3))
+        base = [(has_r, has_s, ephs) for has_r in (True, False) for has_s in (True, False) for n in ((1, 2) if tier == 'quick' else (1, 2, 3))
                 for ephs in _it.product((0, 1, 2), repeat=n) if has_r or ephs == (0,)]
+        # prior: an exit message of a neighbour had come in on that side before (obeyed or ignored by the filter) -- the other neighbours of the same side still have to be told
+        return [b + (prior,) for b in base for prior in (None, 'sender', 'receiver') if prior is None or (b[0] and b[1] and len(b[2]) <= 2)]
 
     def run(self, shape, dec):
-        has_r, has_s, ephs = shape
-        ex = new_exec(dec, ZMQ)
+        has_r, has_s, ephs, prior = shape
+        ex = new_exec(dec, [ZMQ, MQ])
         ex.modules[ZMQ] = zmq_consts()
         _install(ex)
         register_class(ex, ZMQ, 'ZMQReceiver')
@@ -72,8 +74,37 @@ class AnnounceUnit(_Unit):
         msnd = Obj('ZMQSender', server_id='msrv', pubs=[Obj('pubsock', log=publog, _k=9)], clients={}) if has_s and len(ephs) == 1 else None
         g = ex.modules[ZMQ]
         g.update(zmq=Obj('zmq', world=None), json_dumps=Native(_jd, 'json_dumps'), json_loads=Native(_jl, 'json_loads'))
-        ex.modules[MQ] = {}
-        me = Obj('MQ', receiver=recv, sender=snd, metrics_sender=msnd)
+        # the MQ object as the REAL MQ.__init__ builds it (per-instance state a change introduces is followed); the ZeroMQ endpoints are the model objects above and hand
+        # back the out-of-band callback they were given
+        register_class(ex, MQ, 'MQ')
+        cbs = {}
+
+        def mk_sender(ex_, bind, mq_id, cb=None, *a, **k):
+            which = 'metrics' if bind == 'metrics-out' else 'sender'
+            cbs[which] = cb
+            return msnd if which == 'metrics' else snd
+
+        def mk_receiver(ex_, srcs, mq_id, cb=None, *a, **k):
+            cbs['receiver'] = cb
+            return recv
+        gm = ex.modules[MQ]
+        gm.update(ZMQSender=Native(mk_sender, 'ZMQSender'), ZMQReceiver=Native(mk_receiver, 'ZMQReceiver'), rndstr=Native(lambda ex_, n: 'mqid', 'rndstr'), OUTPUTS_JPG=None, OUTPUTS_METRICS=None,
+                  OUTPUTS_FILTER=None, MQ_LOG=None, MQ_MSGID_SYNC=True, Metrics=Native(lambda ex_: Obj('metricsobj'), 'Metrics'), DummyMetrics=Native(lambda ex_: Obj('metricsobj'), 'DummyMetrics'),
+                  time=Native(lambda ex_: _z3.Real('t_init'), 'time'), MQ=ClassRef('MQ'))
+        obeyed = []
+        me = Obj('MQ')
+        try:
+            ex.call_closure(ex.class_member('MQ', '__init__'), [me, 'sources' if has_r else None, 'outputs' if has_s else None, 'mqid'],
+                            dict(outs_metrics='metrics-out' if msnd is not None else None, on_exit_msg=Native(lambda ex_, r: obeyed.append(r), 'Filter.on_exit_msg')))
+        except ExcSig as e:
+            raise Unsupported(f'contract no longer binds: MQ.__init__ raises {e.cls} ({e.origin})')
+        if prior is not None:
+            cb = cbs.get(prior)
+            if cb is None:
+                raise Unsupported('contract no longer binds: the endpoint constructors are not given an out-of-band callback')
+            ex.call_value(cb, [[_z3.String('earlier_reason')]], {})
+            ex.cover('exit received before')
+            ex.oblige('C08.obey: an exit message that comes in is handed to the filter (which obeys it or not by its policy)', len(obeyed) == 1)
         reason = _z3.String('reason')
         try:
             ex.call_closure(closure(MQ, 'MQ.send_exit_msg'), [me, reason], {})
@@ -122,7 +153,22 @@ def replay_announce(failure):
                 got = [m for m in (snd.push.sent if snd.push is not None else []) if json.loads(m[0]).get('mid') == -2 and json.loads(m[0]).get('xtra') == 'bye']
                 if e < 2 and len(got) != 1:
                     obs.append(f'sources {ephs}, heard so far {heard}: source {k} was handed {len(got)} exit announcements')
-    return {'confirmed': bool(obs), 'inputs': 'ZMQReceiver.send_oob(["bye"]) with sources not yet heard (conn False) and heard (conn True)', 'observed': obs or 'every source with a request channel got the announcement',
+    # the whole MQ (real MQ.__init__ over the in-memory sockets): an exit message of a neighbour came in on one side before; send_exit_msg must still reach BOTH sides
+    try:
+        from openfilter.filter_runtime.mq import MQ as RealMQ
+        for prior in (None, 'sender', 'receiver'):
+            got = []
+            mq = RealMQ(['tcp://up0:6100', 'tcp://up1:6102'], 'tcp://*:6200', 'mid', on_exit_msg=lambda r: got.append(r))
+            if prior is not None:
+                getattr(mq, prior).message_oob(['neighbour exits'])
+            mq.send_exit_msg('clean')
+            ups = [sum(1 for m in snd.push.sent if json.loads(m[0]).get('mid') == -2 and json.loads(m[0]).get('xtra') == 'clean') for snd in mq.receiver.senders.values()]
+            downs = [sum(1 for m in pub.sent if len(m) > 1 and json.loads(m[1]).get('mid') == -2 and json.loads(m[1]).get('xtra') == 'clean') for pub in mq.sender.pubs]
+            if any(u != 1 for u in ups) or any(d != 1 for d in downs):
+                obs.append(f'an exit message had come in on the {prior} side before: send_exit_msg reached upstream sources {ups} times and downstream PUB sockets {downs} times (each must be 1)')
+    except Exception as e:
+        obs.append(f'MQ scenario: {type(e).__name__}: {e}')
+    return {'confirmed': bool(obs), 'inputs': 'ZMQReceiver.send_oob(["bye"]) with sources not yet heard (conn False) and heard (conn True); MQ.send_exit_msg after an exit message came in on one side', 'observed': obs or 'every source with a request channel got the announcement',
             'required': 'an exit is announced to every neighbour, also one that has not been heard yet (exit during setup / before the first frame)'}
 
 
